@@ -49,8 +49,10 @@ func raceMain(iters int) int {
 					defer wg.Done()
 					<-start
 					// stagger the threads a little differently in every iteration
-					for k := 0; k < (it*7+i*13)%5; k++ {
-						runtime.Gosched()
+					if !sc.raceOnly {
+						for k := 0; k < (it*7+i*13)%5; k++ {
+							runtime.Gosched()
+						}
 					}
 					for _, c := range inst.threads[i] {
 						res[i] = append(res[i], c.name+": "+guard(c.name, c.fn)())
